@@ -20,6 +20,7 @@ import Nitime.Model.C15Types
 import Nitime.Generated.SeriesCalls
 import Nitime.Generated.C18Opts
 import Nitime.Model.FiltFilt
+import Nitime.Model.C18Sess
 
 namespace Nitime.C18
 open Nitime
@@ -258,6 +259,48 @@ def parseData? (s : String) : Option (List Float) :=
   if s.startsWith "i:" then ((Proto.splitList (s.drop 2).toString).mapM String.toInt?).map embedInts
   else Proto.parseFloatList? s
 
+/-- `filtered_boxcar` on one channel: band edges as fractions of Fs (`ub None ↦ 1.0`), `lb == 0 ↦` no high-pass stage -/
+def boxcarLine (fs lb : Float) (ub : Option Float) (x : List Float) : List Float :=
+  let u := match ub with | some u => u / fs | none => 1.0
+  let l := lb / fs
+  let ml := if l == 0 then none else some (ceilHalfInv l)
+  boxcarFilter (ceilHalfInv u) ml x
+
+/-! ### the analyzer as an object with a history (Model/C18Sess.lean): input = (Fs, one channel), params = (lb, ub)
+
+`filtered_fourier`'s body WRITES a parameter (`if self.ub is None: self.ub = Fs/2`): `touch`.  `fir` / `iir` are external
+designs (not run through the session op; judged against fresh analyzers by the oracle). -/
+def floatSem : Sess.Sem (Float × List Float) (Float × Option Float) (List Float) where
+  compute m i p :=
+    match m with
+    | .fourier => filteredFourier i.1 p.1 p.2 i.2
+    | .boxcar => boxcarLine i.1 p.1 p.2 i.2
+    | _ => []
+  touch m i p :=
+    match m with
+    | .fourier => (p.1, some (p.2.getD (i.1 / 2)))
+    | _ => p
+
+open Proto in
+/-- one operation token of a history line: `lb=<f>`, `ub=<f|none>`, `reset`, `rf` / `rb` (read filtered_fourier /
+filtered_boxcar), `in=<Fs>:<data>` (another input), `opt` (an option neither getter reads: filt_order, gpass, …), `refused` (a call that raised part-way) -/
+def parseSessOp (t : String) : Option (Sess.Op (Float × List Float) (Float × Option Float)) :=
+  if t = "reset" then some .reset
+  else if t = "rf" then some (.read .fourier)
+  else if t = "rb" then some (.read .boxcar)
+  else if t = "opt" then some (.setParam id)
+  else if t = "refused" then some .refused
+  else if t.startsWith "lb=" then (parseFloat? (t.drop 3).toString).map fun v => .setParam fun p => (v, p.2)
+  else if t.startsWith "ub=" then (optF (t.drop 3).toString).map fun v => .setParam fun p => (p.1, v)
+  else if t.startsWith "in=" then
+    match (t.drop 3).toString.splitOn ":" with
+    | [fs, x] =>
+      match parseFloat? fs, parseData? x with
+      | some fs, some x => some (.setInput (fs, x))
+      | _, _ => none
+    | _ => none
+  else none
+
 open Proto in
 def handle (args : List String) : String :=
   match args with
@@ -294,12 +337,14 @@ def handle (args : List String) : String :=
     | _, _, _ => "bad-args"
   | ["boxcar", fs, lb, ub, x] =>
     match parseFloat? fs, parseFloat? lb, optF ub, parseFloatList? x with
-    | some fs, some lb, some ub, some x =>
-      let u := match ub with | some u => u / fs | none => 1.0
-      let l := lb / fs
-      let ml := if l == 0 then none else some (ceilHalfInv l)
-      "ok " ++ showFloatList (boxcarFilter (ceilHalfInv u) ml x)
+    | some fs, some lb, some ub, some x => "ok " ++ showFloatList (boxcarLine fs lb ub x)
     | _, _, _, _ => "bad-args"
+  | "session" :: fs :: lb :: ub :: x :: ops =>
+    -- ONE analyzer built with (lb, ub) on (Fs, x), then the whole history; answer = what every read returned, in order
+    match parseFloat? fs, parseFloat? lb, optF ub, parseData? x, ops.mapM parseSessOp with
+    | some fs, some lb, some ub, some x, some ops =>
+      "ok " ++ "|".intercalate ((Sess.run floatSem (Sess.fresh (fs, x) (lb, ub)) ops).2.map showFloatList)
+    | _, _, _, _, _ => "bad-args"
   | ["boxcarnd", dims, iters, lb, ub, x] =>
     -- boxcar_filter(time_series.reshape(dims), lb, ub, n_iterations): lb, ub fractions of the sampling rate
     match (dims.splitOn "x").mapM String.toNat?, iters.toNat?, parseFloat? lb, parseFloat? ub, parseData? x with
